@@ -7,6 +7,7 @@ import (
 	"errors"
 	"fmt"
 	"io"
+	"strings"
 
 	astits "github.com/asticode/go-astits"
 	"verif/mc"
@@ -171,6 +172,27 @@ func c08Observe(cfg c08Cfg, b []byte, chunk int, envP, envD *mc.Env) (pk, da []s
 	return pk, da, ""
 }
 
+// c08Loose summarises what a configuration yields without requiring success: packet and data sequences
+// and whether any call returned an error (the error text may name the reader-specific cause).
+func c08Loose(cfg c08Cfg, b []byte, chunk int) string {
+	var opts []func(*astits.Demuxer)
+	if !cfg.Auto {
+		opts = append(opts, astits.DemuxerOptPacketSize(188+cfg.K))
+	}
+	po := DrainPackets(astits.NewDemuxer(context.Background(), c08Reader(cfg, b, chunk, nil), opts...), len(b))
+	do := DrainData(astits.NewDemuxer(context.Background(), c08Reader(cfg, b, chunk, nil), opts...), len(b))
+	var sb strings.Builder
+	fmt.Fprintf(&sb, "NextPacket: panic=%v eof=%v errors=%v packets=[", po.Panic != nil, po.EOF, len(po.Errs) > 0)
+	for _, p := range po.Pkts {
+		sb.WriteString(mc.Canon(p) + ";")
+	}
+	fmt.Fprintf(&sb, "] NextData: panic=%v eof=%v errors=%v data=[", do.Panic != nil, do.EOF, len(do.Errs) > 0)
+	for _, x := range do.Data {
+		sb.WriteString(mc.Canon(x) + ";")
+	}
+	return sb.String() + "]"
+}
+
 func firstN(s []string, n int) []string {
 	if len(s) > n {
 		return s[:n]
@@ -208,7 +230,7 @@ func checkC08(c *mc.Ctx) {
 		}
 		// expected for plain+auto: the stream without its first two packets
 		var lossPk, lossDa []string
-		if len(st.Bytes) >= 3*188 {
+		if len(st.Bytes) >= 2*188 {
 			lossPk, lossDa, _ = c08Observe(c08Cfg{"bytes", false, 0}, st.Bytes[2*188:], 0, nil, nil)
 		}
 		expect := func(cfg c08Cfg) ([]string, []string) {
@@ -240,7 +262,7 @@ func checkC08(c *mc.Ctx) {
 		}
 		var jobs []job
 		for _, cfg := range cfgs {
-			if cfg.Auto && len(st.Bytes) < 3*188 {
+			if cfg.Auto && len(st.Bytes) < 2*188 {
 				continue
 			}
 			if cfg.Kind == "bytes" || cfg.Kind == "bytesoff" || cfg.Kind == "section" {
@@ -270,13 +292,40 @@ func checkC08(c *mc.Ctx) {
 		})
 		c.Ev.AddScenario(mc.Scenario{Name: "fixed-chunks:" + st.Name, SpaceSize: total, Executed: done, Exhaustive: done == total,
 			Bound: "every chunk size 1..400 and a single chunk boundary at every offset 1..400 x {bufio, plain, seekable, seekable standing at a non-zero offset} x {explicit, auto} x packet size 188+k, k in {0,1,2,3,4,16} (auto: k<=4); bytes.Reader once per configuration"})
+		// a stream too short for auto-detection (one packet): whether the library refuses it or copes with it,
+		// the outcome (packets, data, error or not) is the same for every reader kind and read schedule
+		if len(st.Bytes) < 2*188 {
+			var n int64
+			for _, k := range []int{0, 1, 2, 3, 4} {
+				b := enlarge(st.Bytes, k)
+				want := c08Loose(c08Cfg{"bytes", true, k}, b, 0)
+				for _, kind := range []string{"bufio", "seek", "seekoff", "bytesoff", "section"} {
+					cfg := c08Cfg{kind, true, k}
+					chunks := []int{0}
+					if kind == "bufio" || kind == "seek" || kind == "seekoff" {
+						chunks = []int{1, 2, 3, 47, 187, 188, 189, 192, 193, 194, 400, -1, -188, -189}
+					}
+					for _, ch := range chunks {
+						n++
+						c.Ev.Distinct(fmt.Sprintf("%s|%s|short-auto|%d", st.Name, cfg, ch))
+						if got := c08Loose(cfg, b, ch); got != want {
+							c.Rep.Report("short-stream-auto-depends-on-reader:"+kind, map[string]any{"kind": "stream", "stream": st.Name, "cfg": cfg.String(), "schedule": fmt.Sprintf("chunk=%d", ch), "bytes": mc.Hex(b),
+								"message": fmt.Sprintf("auto-detection on a one-packet stream: %s gives\n  %s\nbytes.Reader gives\n  %s", kind, got, want)})
+						}
+					}
+				}
+			}
+			c.Ev.Class("short-stream-auto", n)
+			c.Ev.AddScenario(mc.Scenario{Name: "short-stream-auto:" + st.Name, SpaceSize: n, Executed: n, Exhaustive: true,
+				Bound: "one-packet stream x auto-detection x packet size 188..192 x {bufio, seekable, seekable at an offset, advanced bytes.Reader, SectionReader} x chunkings: same packets, data and error/no-error as on a bytes.Reader"})
+		}
 		// deviation-bounded short reads
 		bound := 2
 		if c.Thorough() {
 			bound = 3
 		}
 		for _, cfg := range cfgs {
-			if cfg.Kind == "bytes" || cfg.Kind == "bytesoff" || cfg.Kind == "section" || (cfg.K != 0 && cfg.K != 4) || (cfg.Auto && len(st.Bytes) < 3*188) {
+			if cfg.Kind == "bytes" || cfg.Kind == "bytesoff" || cfg.Kind == "section" || (cfg.K != 0 && cfg.K != 4) || (cfg.Auto && len(st.Bytes) < 2*188) {
 				continue
 			}
 			if cfg.K == 4 && !c.Thorough() && cfg.Kind != "plain" {
@@ -302,5 +351,5 @@ func checkC08(c *mc.Ctx) {
 		}
 		c.Ev.Sample(map[string]any{"stream": st.Name, "packets": len(st.Pkts), "configurations": len(cfgs)})
 	}
-	c.Ev.Require("one-byte-reads", "auto-detect", "larger-packets", "short-read-deviation")
+	c.Ev.Require("one-byte-reads", "auto-detect", "larger-packets", "short-read-deviation", "short-stream-auto")
 }
